@@ -20,8 +20,15 @@ NAMES = ['na', 'nb', 'nc']
 NAMES0 = ['', 'nb', 'nc']        # the empty string is an event name like any other (impl 'emitter0')
 
 
+NAMEST = ['t:cell|A1', 'cell', 'A1']     # impl 'emittert': the first name stands for the tuple ('cell', 'A1') - any hashable value names an event, and that one is not the two names it is made of
+
+
 def names_of(impl):
-    return PNAMES if impl == 'parser' else (NAMES0 if impl == 'emitter0' else NAMES)
+    return PNAMES if impl == 'parser' else (NAMES0 if impl == 'emitter0' else (NAMEST if impl == 'emittert' else NAMES))
+
+
+def event_key(name):
+    return tuple(name[2:].split('|')) if name.startswith('t:') else name
 PNAMES = ['callCellValue', 'callRangeValue', 'callVariable', 'callFunction']
 NCB = 5
 MAX_DEPTH = 3
@@ -63,7 +70,7 @@ class ModelEmitter(object):
             ent.cb(*args, **ent.ctx)
 
     def table(self, name, ident):
-        return [(ident(x.cb), sorted(x.ctx.items()), x.once) for x in self.e.get(name, [])]
+        return [(ident(x.cb), sorted(x.ctx.items()), x.once) for x in self.e.get(event_key(name), [])]
 
 
 class Driver(object):
@@ -127,13 +134,13 @@ class Driver(object):
         if nested:
             self.stats['during-delivery:' + kind] = self.stats.get('during-delivery:' + kind, 0) + 1
         if kind == 'on':
-            self.em.on(act[1], self.cbs[act[2]], dict(act[3]) if act[3] else None)
+            self.em.on(event_key(act[1]), self.cbs[act[2]], dict(act[3]) if act[3] else None)
         elif kind == 'once':
-            self.em.once(act[1], self.cbs[act[2]], dict(act[3]) if act[3] else None)
+            self.em.once(event_key(act[1]), self.cbs[act[2]], dict(act[3]) if act[3] else None)
         elif kind == 'off':
-            self.em.off(act[1])
+            self.em.off(event_key(act[1]))
         elif kind == 'offcb':
-            self.em.off(act[1], self.cbs[act[2]])
+            self.em.off(event_key(act[1]), self.cbs[act[2]])
         elif kind == 'emit':
             if nested:
                 if self.depth >= MAX_DEPTH or self.nested >= MAX_NESTED:
@@ -144,7 +151,7 @@ class Driver(object):
             self.depth += 1
             self.current.append(act[1])
             try:
-                self.em.emit(act[1], act[1], *act[2])
+                self.em.emit(event_key(act[1]), act[1], *act[2])
             finally:
                 self.current.pop()
                 self.depth -= 1
@@ -158,7 +165,7 @@ class Driver(object):
 
 def real_table(em, name, ident):
     out = []
-    for l in list(em._e.get(name, [])):
+    for l in list(em._e.get(event_key(name), [])):
         fn = l.fn
         once = hasattr(fn, '_')
         base = fn._ if once else fn
@@ -262,13 +269,13 @@ def case_strategy():
         ops = st.tuples(st.lists(sub, min_size=2, max_size=6), st.lists(rnd, min_size=1, max_size=8)).map(
             lambda t: t[0] + [a for r in t[1] for a in r])
         return st.fixed_dictionaries({'impl': st.just(impl), 'scripts': scripts, 'ops': ops})
-    return st.sampled_from(['emitter', 'emitter', 'emitter0', 'parser', 'parser']).flatmap(build)
+    return st.sampled_from(['emitter', 'emitter', 'emitter0', 'emittert', 'parser', 'parser']).flatmap(build)
 
 
 LAWS = [
     Law('lockstep', check, strategy=case_strategy(), nontrivial=nontrivial, key=key, classes=classes,
         required=('nested-same-name', 'during-delivery:on', 'during-delivery:off', 'during-delivery:offcb', 'during-delivery:once',
-                  'duplicate-subscription', 'op:once', 'op:offcb', 'impl:parser', 'impl:emitter', 'impl:emitter0'),
+                  'duplicate-subscription', 'op:once', 'op:offcb', 'impl:parser', 'impl:emitter', 'impl:emitter0', 'impl:emittert'),
         quick=4000, thorough=160000, shards=(8, 16),
         rule='history = 3-38 top-level operations (2-6 subscriptions, then 1-8 rounds of up to 3 arbitrary operations followed by an emit) (on/once with or without context, off(name), off(name,callback), emit(name,args)) over 3 names x 5 callbacks (two of them bound methods of a host object, fetched anew for every on/once/off, so equal but not identical); '
              'each callback carries a generated script of up to 3x3 operations it performs when invoked; oracle = reference emitter run in lockstep, '
